@@ -27,6 +27,7 @@ type twCfg struct {
 	MaxL   int    `json:"max_len"`
 	Eager  bool   `json:"eager_feed"`
 	Unit   string `json:"time_unit,omitempty"` // "" = ms; "ss": the ts column holds seconds; "ns": nanoseconds
+	NoSentinel bool `json:"no_sentinel,omitempty"` // the stream simply stops: what the last watermark has passed must be out by quiescence
 	LateMs int64  `json:"allowed_lateness_ms,omitempty"` // ALLOWEDLATENESS; only arrival sequences without a late-on-arrival row are run (late updates are C02's subject)
 	GapMs  int64  `json:"gap_ms,omitempty"`    // the second half of the stream (and the sentinel) lies this much later in event time
 	Block  bool   `json:"block_slow_consumer,omitempty"` // strategy block without timeout, window output buffer of 1, sink taking 20 ms per batch
@@ -114,6 +115,9 @@ func twEvents(c twCfg, tsIdx []int, keyBits int) []ref.Event {
 		evs = append(evs, ref.Event{ID: i + 1, Key: k, TS: ts, V: float64(int(1) << uint(i))})
 	}
 	// sentinel far ahead (but far below now+24h of the virtual clock): pushes the watermark past every window
+	if c.NoSentinel {
+		return evs
+	}
 	evs = append(evs, ref.Event{ID: 99, Key: "zz", TS: c.at(500000) + c.GapMs, V: 0})
 	return evs
 }
@@ -323,6 +327,9 @@ func twConfigs(kind, tier string) []twCfg {
 			out = append(out, twCfg{Kind: kind, SizeMs: 2000, OOOMs: 1000, Keys: 1, MaxL: maxL, Eager: eager, GapMs: 36 * 3600 * 1000})
 		}
 		out = append(out, twCfg{Kind: kind, SizeMs: 2000, OOOMs: 0, Keys: 1, MaxL: maxL, Eager: false, Block: true})
+		for _, eager := range []bool{false, true} {
+			out = append(out, twCfg{Kind: kind, SizeMs: 2000, OOOMs: 0, Keys: 1, MaxL: maxL, Eager: eager, NoSentinel: true}, twCfg{Kind: kind, SizeMs: 1500, OOOMs: 500, Keys: 1, MaxL: maxL, Eager: eager, NoSentinel: true})
+		}
 		// ALLOWEDLATENESS shorter and longer than the window, on-time rows only: the first firing is what it is without it
 		for _, late := range []int64{200, 1000, 3000} {
 			out = append(out, twCfg{Kind: kind, SizeMs: 2000, OOOMs: 0, Keys: 1, MaxL: maxL, Eager: true, LateMs: late}, twCfg{Kind: kind, SizeMs: 2000, OOOMs: 1000, Keys: 1, MaxL: maxL, Eager: false, LateMs: late})
@@ -362,6 +369,13 @@ func twConfigs(kind, tier string) []twCfg {
 	out = append(out, twCfg{Kind: kind, SizeMs: 4000, Slide: 2000, OOOMs: 0, Keys: 1, MaxL: maxL, Eager: false, Block: true})
 	for _, late := range []int64{200, 3000} {
 		out = append(out, twCfg{Kind: kind, SizeMs: 4000, Slide: 2000, OOOMs: 0, Keys: 1, MaxL: maxL, Eager: true, LateMs: late}, twCfg{Kind: kind, SizeMs: 4000, Slide: 2000, OOOMs: 1000, Keys: 1, MaxL: maxL, Eager: false, LateMs: late})
+	}
+	// no sentinel: the last row's watermark passes some interval ends and then the stream is silent
+	for _, ss := range [][2]int64{{2500, 1000}, {3000, 2000}} {
+		for _, eager := range []bool{false, true} {
+			out = append(out, twCfg{Kind: kind, SizeMs: ss[0], Slide: ss[1], OOOMs: 0, Keys: 1, MaxL: maxL, Eager: eager, NoSentinel: true})
+		}
+		out = append(out, twCfg{Kind: kind, SizeMs: ss[0], Slide: ss[1], OOOMs: 500, Keys: 1, MaxL: maxL, Eager: true, NoSentinel: true})
 	}
 	for _, base := range []int64{1700000000300, 1700000000000} {
 		out = append(out, twCfg{Kind: kind, SizeMs: 200, Slide: 100, OOOMs: 100, Keys: 1, MaxL: maxL, Eager: true, Base: base, Div: 20, Float: true})
